@@ -30,7 +30,7 @@ EXPLANATION = (
     "and the offset by calcsize(header)+body_len of the same call once per cycle; every return of decode_pdu has the "
     "unpacked length first; the three reject edges return TID_MISMATCH / the item's status / BAD_CONTROL. (T2) the four "
     "*_exit functions store result i under ids[i] (enumerate from 0) and map a PDUStatus to status = -value. "
-    "Quantifier: all CFG paths and all fragment sizes / body lengths (symbolic linear bound), not sampled inputs."
+    "Quantifier: all CFG paths and all fragment sizes / body lengths (symbolic linear bound), not sampled inputs. Added from a seeded fault (two independent occurrences): when the BLE reassembly loop is driven by a countdown of missing bytes, the countdown is reduced by the length of exactly the term that is appended to the body."
 )
 TRUSTED = [
     "bytes slicing semantics (b[i:j] has min(j, len) - i bytes for 0 <= i <= j) and struct.calcsize of the standard-size formats",
